@@ -644,6 +644,8 @@ class BlockDownloadStream(io.RawIOBase):
         self._last_bytes_sent = 0
         self._current_block = []
         self._retransmitting = False
+        # Accepted data that does not fill a segment yet
+        self._pending = b""
         command = REQUEST_BLOCK_DOWNLOAD | INITIATE_BLOCK_TRANSFER
         if request_crc_support:
             command |= CRC_SUPPORTED
@@ -682,23 +684,27 @@ class BlockDownloadStream(io.RawIOBase):
             Data to be transmitted.
 
         :returns:
-            Number of bytes successfully sent or ``None`` if length of data is
-            less than 7 bytes and the total size has not been reached yet.
+            Number of bytes accepted. Data that does not fill a complete
+            segment of 7 bytes is kept until more data arrives, unless the
+            total size has been reached.
         """
         if self._done:
             raise RuntimeError("All expected data has already been transmitted")
         # Can send up to 7 bytes at a time. Take a copy: the segment is kept for a
         # possible retransmission and the caller may reuse its buffer after this call
-        data = bytes(b[0:7])
+        taken = bytes(b[0:7 - len(self._pending)])
+        data = self._pending + taken
         if self.size is not None and self.pos + len(data) >= self.size:
             # This is the last data to be transmitted based on expected size
+            self._pending = b""
             self.send(data, end=True)
         elif len(data) < 7:
             # We can't send less than 7 bytes in the middle of a transmission
-            return None
+            self._pending = data
         else:
+            self._pending = b""
             self.send(data)
-        return len(data)
+        return len(taken)
 
     def send(self, b, end=False):
         """Send up to 7 bytes of data.
@@ -736,7 +742,7 @@ class BlockDownloadStream(io.RawIOBase):
             self._block_ack()
 
     def tell(self):
-        return self.pos
+        return self.pos + len(self._pending)
 
     def _block_ack(self):
         logger.debug("Waiting for acknowledgement of last block...")
